@@ -13,7 +13,7 @@ All theorems are about the model Ymq/Model/Gf2Small.lean (tied to the code by th
 -/
 import Ymq.Lemmas.Gf2SmallCallsite
 import Ymq.Lemmas.Gf2SmallInverse
-import Ymq.Lemmas.Gf2SmallLoopMain
+import Ymq.Lemmas.Gf2SmallLoopBase
 import Ymq.Model.Gf2Genblock
 
 namespace Ymq.C14Small
@@ -412,10 +412,10 @@ longer projected — purged earlier, or consumed now, `mask == 0` — are A-orth
 `debug_assert!` of the loop holds — `ws[j]·av == 0` at a purge, `(A·W_j)ᵗ·next == 0` after each
 projection, `ginv.rank() == (rk, mask)`, `W·A·Y == 0` — and the invariant holds again for the new state
 with the new block appended to the history.
-MISSING for `lanczos_loop_no_panic` (named): (1) the three-term property `h3` as a consequence of the
+MISSING for `lanczos_loop_no_panic` (named): the three-term property `h3` as a consequence of the
 invariant (Montgomery's argument: `A·W_j ∈ span(V_{j+1}, V_j, W_l (l ≤ j))` and the unselected vectors of
 `V_j` are selected later, which is what `mask == 0` expresses); it needs `V_j` in the ghost history;
-(2) the base case `LInv` for the state of `lanczosInit` (`hist = [A·Y0]`, `Ss = [!0]`, from `inverse_spec`).
+(the base case is `lanczos_init_invariant`).
 The K stream runs the checked model on every iteration of real runs (no panic), and the oracle checks
 `W_iᵗ A W_j = 0` pairwise on the recorded blocks. -/
 theorem lanczos_step_no_panic_checked (k : Nat) (cols : List (List Nat)) (Y0 ay : List Nat) (st : LState)
@@ -428,6 +428,15 @@ theorem lanczos_step_no_panic_checked (k : Nat) (cols : List (List Nat)) (Y0 ay 
     (∃ st' mk w, lanczosStep true (qsOptimize k cols) ay st = .continue st' mk ∧
       LInv k cols Y0 st' (hist ++ [w]) (Ss ++ [mk])) :=
   lanczosStep_checked_ok hM hay hayOK hInv h3
+
+open Ymq.Gf2Lanczos Ymq.Gf2 in
+/-- BASE CASE of the invariant: the state built by `lanczosInit` from the block `Y0` of `genblock`
+(either profile) satisfies `LInv` with history `[A·Y0]` and mask `!0`, and `ay = A·Y0` -/
+theorem lanczos_init_invariant (k : Nat) (cols : List (List Nat)) (dbg : Bool) (Y0 ay : List Nat) (st : LState)
+    (hM : MatOK k cols) (hY0 : BlockOK cols.length Y0)
+    (h : lanczosInit dbg (qsOptimize k cols) Y0 = some (st, ay)) :
+    Ymq.Gf2Genblock.mulAabOpt (qsOptimize k cols) Y0 = some ay ∧ LInv k cols Y0 st [ay] [M64] :=
+  lanczosInit_inv hM dbg hY0 h
 
 open Ymq.Gf2Lanczos Ymq.Gf2 in
 /-- the classical invariant read off `LInv`: pairwise A-orthogonality of the selected blocks, the Gram
